@@ -69,6 +69,7 @@ def generate(rng, tier, index):
     add({"kind": "phasor", "name": "p_sp", "box": box, "components": comps, "reduce": False, "wavelengths": wl})
     add({"kind": "phasor", "name": "p_red", "box": box, "components": comps, "reduce": True, "wavelengths": wl})
     add({"kind": "phasor", "name": "p_inv", "box": box, "components": comps, "reduce": False, "wavelengths": wl, "inverse": True})
+    add({"kind": "phasor", "name": "p_inv_red", "box": box, "components": comps, "reduce": True, "wavelengths": wl, "inverse": True})
     add({"kind": "energy", "name": "e_sp", "box": box, "reduce": False})
     add({"kind": "energy", "name": "e_red", "box": box, "reduce": True})
     groups.append("volume")
@@ -76,6 +77,8 @@ def generate(rng, tier, index):
     add({"kind": "poynting", "name": "s_sp", "box": pbox, "direction": "+", "reduce": False})
     add({"kind": "poynting", "name": "s_plus", "box": pbox, "direction": "+", "reduce": True})
     add({"kind": "poynting", "name": "s_minus", "box": pbox, "direction": "-", "reduce": True})
+    add({"kind": "poynting", "name": "s_minus_sp", "box": pbox, "direction": "-", "reduce": False})
+    add({"kind": "poynting", "name": "s_all_minus_red", "box": pbox, "direction": "-", "reduce": True, "keep_all_components": True})
     add({"kind": "poynting", "name": "s_all_sp", "box": pbox, "direction": "+", "reduce": False, "keep_all_components": True})
     add({"kind": "poynting", "name": "s_all_red", "box": pbox, "direction": "+", "reduce": True, "keep_all_components": True})
     groups.append("plane")
@@ -186,6 +189,14 @@ def execute(spec):
         a = np.array(fwd_det.update(state=zero, **kw)["phasor"])
         b = np.array(inv_det.update(state=zero, **kw)["phasor"])
         check("inverse_phasor_subtracts_forward", b, -a)
+        # the same for the volume-reduced pair (forward reduced vs inverse reduced on identical inputs)
+        zr = {"phasor": jnp.zeros_like(arr.detector_states["p_red"]["phasor"])}
+        ar = np.array(scn.objects["p_red"].update(state=zr, **kw)["phasor"])
+        br = np.array(scn.objects["p_inv_red"].update(state=zr, **kw)["phasor"])
+        check("inverse_reduced_phasor_subtracts_forward", br, -ar, float(np.max(np.abs(a))) if a.size else None)
+    # accumulated over the run: the reduced inverse record is the volume mean of the spatial inverse record
+    pinv = D["p_inv/phasor"]
+    check("reduced_inverse_phasor_vs_spatial", D["p_inv_red/phasor"], np.sum(pinv * V[None, None, None], axis=(3, 4, 5)) / V.sum(), float(np.max(np.abs(pinv))) if pinv.size else None)
     # --- plane group
     pax = spec["plane_axis"]
     pb = by["s_sp"]["box"]
@@ -195,12 +206,15 @@ def execute(spec):
         sc_ = float(np.sum(np.abs(ssp) * A[None], axis=(1, 2, 3)).max())
         check("reduced_poynting_vs_spatial", D["s_plus/poynting_flux"][:, 0], np.sum(ssp * A[None], axis=(1, 2, 3)), sc_)
         check("minus_negates_plus", D["s_minus/poynting_flux"], -D["s_plus/poynting_flux"], sc_)
+        check("minus_negates_plus_spatial", D["s_minus_sp/poynting_flux"], -ssp, float(np.max(np.abs(ssp))))
+        check("reduced_minus_vs_spatial_minus", D["s_minus/poynting_flux"][:, 0], np.sum(D["s_minus_sp/poynting_flux"] * A[None], axis=(1, 2, 3)), sc_)
         allsp = D["s_all_sp/poynting_flux"]  # (n, 3, x, y, z)
         check("single_component_vs_all_components", ssp, allsp[:, pax], float(np.max(np.abs(allsp))))
         allred = D["s_all_red/poynting_flux"]  # (n, 3)
         want = np.stack([np.sum(allsp[:, a] * area(pb, a)[None], axis=(1, 2, 3)) for a in range(3)], axis=1)
         check("reduced_all_components_vs_spatial", allred, want, float(np.max(np.abs(want))))
         check("single_reduced_vs_all_reduced", D["s_plus/poynting_flux"][:, 0], allred[:, pax], sc_)
+        check("minus_negates_plus_all_components", D["s_all_minus_red/poynting_flux"], -allred, float(np.max(np.abs(want))))
     # --- closed surface group
     cout = D["c_out/poynting_flux"][:, 0]
     if cout.shape[0]:
